@@ -8,6 +8,9 @@ Leg M: TLC checks in exact rationals (MC_Spline) on integer knot vectors and the
 Leg R: every enumerated (knots, degree, intercept, extrapolation mode) is executed through bs()
        directly and through model_matrix, and every (knots, cyclic) through cr() / cc(); values
        compared with the exact ones (1e-9), NaN rows, zero rows and errors as each mode documents.
+       Vectors with nulls (Spline!BsVec): 25 small vectors per case - in range / below / above / both, nulls beside or in place
+       of the out-of-range value - with TLC's verdict of the call ('raise' looks at the non-null values only) and row statuses;
+       TLC refutes the min/max-reduction guard and the not-inside guard on the same family (GuardLaw).
 Leg O: oracle round trip for the `df` path: the harness calls the transform with df, reads the
        recorded knots / bounds from its state, converts them to exact fractions (only if
        lossless) and TLC evaluates the same definitions on that knot vector (Oracle_Spline).
@@ -90,6 +93,7 @@ def replay_bs(case):
             got2 = got2.reshape(len(xs), 0) if got2.size == 0 else got2
         if not close(got2, exp):
             bad.append({**base, "why": "reuse with recorded state differs"})
+        nvec = replay_vecs(case, bs, kw, st, base, ncols, bad)
         if mode != "raise" and ncols > 0:
             f = f"bs(x, knots={inner!r}, degree={d}, include_intercept={icpt}, lower_bound=0.0, upper_bound=6.0, extrapolation={mode!r})"
             mm = model_matrix("0 + " + f, pandas.DataFrame({"x": xs}), na_action="ignore", ensure_full_rank=False, context={})
@@ -97,7 +101,43 @@ def replay_bs(case):
                 bad.append({**base, "why": "values through model_matrix"})
     except Exception as e:  # noqa
         bad.append({**base, "why": "exception", "observed": type(e).__name__ + ": " + str(e)[:150]})
-    return bad, 3
+    return bad, 3 + nvec
+
+
+def replay_vecs(case, bs, kw, st, base, ncols, bad):
+    """the vectors with nulls of the case (MC_Spline!Sels x null placements): the verdict of the call is TLC's (Spline!BsVec: under 'raise' an error
+    iff some NON-null value is outside the bounds - a null neither raises nor shields its neighbours), a null is a NaN row in every mode and the
+    other rows are the grid rows of the same values.  Each vector goes through a fresh call and through a call re-using the recorded state (the
+    bounds then come from the state, as when a fitted model spec meets new data).  Under 'raise' every vector is replayed, under the other modes
+    (where only the rows are at stake) a rotation of them unless the case says all (quick tier)."""
+    d, icpt, mode = case["degree"], case["intercept"], case["mode"]
+    rot, n = case.get("_rot"), 0
+    for vi, v in enumerate(case.get("vecs", [])):
+        if mode != "raise" and rot is not None and (vi + rot) % 5:
+            continue
+        n += 1
+        xs = numpy.array([float("nan") if nl else fv(case["x"][g - 1]) for g, nl in zip(v["sel"], v["null"])])
+        exp = numpy.array([[float("nan")] * ncols if rs == "NA" else [fv(p) for p in case["rows"][g - 1]["row"]] for g, rs in zip(v["sel"], v["rst"])
+                           if v["st"] == "OK"], dtype=float).reshape(len(xs) if v["st"] == "OK" else 0, ncols)
+        vb = {**base, "x": [None if nl else fv(case["x"][g - 1]) for g, nl in zip(v["sel"], v["null"])], "bounds": [0.0, 6.0]}
+        for how, call in (("fresh call", lambda: bs(xs, _state={}, **kw)),
+                          ("recorded state re-used", lambda: bs(xs, _state=dict(st), knots=None, degree=d, include_intercept=icpt, extrapolation=mode))):
+            try:
+                got = mat_of(call())
+            except ValueError as e:
+                if v["st"] != "ERROR":
+                    bad.append({**vb, "why": f"vector with nulls, {how}: raised although no value is outside the bounds", "observed": str(e)[:120]})
+                continue
+            if v["st"] == "ERROR":
+                bad.append({**vb, "why": f"vector with nulls, {how}: a value outside the bounds did not raise under extrapolation='raise'",
+                            "observed": got.tolist(), "expected": "ValueError"})
+                continue
+            if ncols == 0:
+                got = got.reshape(len(xs), 0) if got.size == 0 else got
+            if not close(got, exp):
+                bad.append({**vb, "why": f"vector with nulls, {how}: values (a null is a NaN row, the other rows are those of their values)",
+                            "observed": got.tolist(), "expected": exp.tolist()})
+    return n
 
 
 def replay_cubic(case):
@@ -231,15 +271,26 @@ def run(ctx: Ctx) -> None:
     out = workdir("c12") / "cases.ndjson"
     out.unlink(missing_ok=True)
     maxinner, maxdeg = (2, 3) if ctx.quick else (4, 5)
-    r = run_tlc("MC_Spline", f"SPECIFICATION Spec\nCONSTANTS\n  Emit = TRUE\n  MaxInner = {maxinner}\n  MaxDegree = {maxdeg}\nINVARIANT BsLaws\nINVARIANT CubicLaws\nINVARIANT EmitCase\n",
+    r = run_tlc("MC_Spline", f"SPECIFICATION Spec\nCONSTANTS\n  Emit = TRUE\n  MaxInner = {maxinner}\n  MaxDegree = {maxdeg}\n  GuardVariant = \"mask\"\nINVARIANT BsLaws\nINVARIANT CubicLaws\nINVARIANT GuardLaw\nINVARIANT EmitCase\n",
                 tag="c12", env={"OUT_FILE": str(out)}, timeout=3400)
     if r.violated:
         ctx.model_violation(r, "MC_Spline")
     ctx.add_tlc(r, f"B-spline laws and self-validation of the cubic bases + emission; <= {maxinner} inner knots, degree <= {maxdeg}")
+    # the family of vectors with nulls discriminates: TLC refutes the guard computed by min / max reductions (one null silences it) and the guard
+    # "not known to be inside" (a null alone trips it); the guard does not look at knots or degree, so the smallest knot family suffices
+    for gv in ("minmax", "notin"):
+        v = run_tlc("MC_Spline", f"SPECIFICATION Spec\nCONSTANTS\n  Emit = FALSE\n  MaxInner = 0\n  MaxDegree = 0\n  GuardVariant = \"{gv}\"\nINVARIANT GuardLaw\n", tag="c12", timeout=600, workers=2)
+        if "GuardLaw" not in v.violated:
+            raise MachineryError(f"MC_Spline guard variant {gv} is not refuted: the family of vectors with nulls is vacuous")
+        ctx.notes[f"raise_guard_variant_{gv}"] = "refuted by GuardLaw"
     cases = read_emitted(out)
     out.unlink()
     if len(cases) != r.distinct:
         raise MachineryError(f"emission incomplete: {len(cases)} of {r.distinct}")
+    if any(c["kind"] == "bs" and len(c.get("vecs", [])) != 25 for c in cases):
+        raise MachineryError("emission without the vectors with nulls")
+    for i, c in enumerate(cases):
+        c["_rot"] = None if ctx.quick else i + ctx.seed          # thorough: under the non-raise modes a rotation of 5 of the 25 vectors per case
     res = pmap("harness.props.c12", "replay_case", cases, chunk=20)
     for c, (bad, n) in zip(cases, res):
         ctx.traces += n
